@@ -256,6 +256,17 @@ pub fn run(thorough: bool) -> i32 {
             }
         }
     }
+    // interleaved blocks of two different lengths, every scheme (FEC 129 announces the length of each block in its
+    // payload ids; the others derive it from the partition)
+    for scheme in [Scheme::NoCode, Scheme::Rs28, Scheme::Rs28Us, Scheme::RaptorQ, Scheme::Raptor] {
+        for sess_kind in [3u8, 4] {
+            for (b, e) in [(5u16, 4u16), (4, 2), (7, 1)] {
+                for l in 1..=(if thorough { 6 } else { 4 }) * b as usize * e as usize + 1 {
+                    acases.push((scheme, sess_kind, b, e, l, 0u8));
+                }
+            }
+        }
+    }
     // many-block objects: block counts around the receiver's pre-allocation limits (2048 and 2 x 2048 blocks),
     // the sender cuts N blocks and the receiver must believe in N as well
     for scheme in [Scheme::NoCode, Scheme::Rs28, Scheme::Rs28Us, Scheme::RaptorQ, Scheme::Raptor] {
@@ -443,11 +454,19 @@ fn sender_receiver_agree(scheme: Scheme, sess_kind: u8, b: u16, e: u16, l: usize
     o.text = cenc != 0;
     o.inband_cenc = true;
     let default = match sess_kind {
-        0 => OtiSpec::new(Scheme::NoCode, 1424, 64, 0, true),
+        0 | 3 | 4 => OtiSpec::new(Scheme::NoCode, 1424, 64, 0, true),
         1 => OtiSpec::new(scheme, e, b * 3 + 1, 1, true),
         _ => OtiSpec::new(scheme, e * 2, b, 1, true),
     };
-    let spec = crate::chan::RecSpec { sess: SessSpec::basic(default), objs: vec![o], polls_ms: vec![0] };
+    let mut sess = SessSpec::basic(default);
+    // session kinds 3 and 4: two / three source blocks open at once (the packets of one block are emitted while a
+    // later block is already loaded)
+    sess.interleave = match sess_kind {
+        3 => 2,
+        4 => 3,
+        _ => 1,
+    };
+    let spec = crate::chan::RecSpec { sess, objs: vec![o], polls_ms: vec![0] };
     let rec = match catch(|| crate::chan::record(&spec)) {
         Ok(Ok(r)) => r,
         Ok(Err(_)) => return None, // refusals (Raptor blocks of 2-3 symbols ...) are C01's business
@@ -470,6 +489,19 @@ fn sender_receiver_agree(scheme: Scheme, sess_kind: u8, b: u16, e: u16, l: usize
         }
     }
     let name = format!("{:?}", scheme);
+    // FEC 129 carries the source block length in every payload id: it is the reference size of THAT block
+    if scheme == Scheme::Rs28Us {
+        for i in rec.obj_idx(toi) {
+            if let Ok(r) = rfc::decode(&rec.pkts[i].1) {
+                if let Ok((sbn, _, Some(sbl), _)) = r.payload_id(8) {
+                    let k = refp.symbols_of(sbn as u128) as u32;
+                    if sbl != k {
+                        return Some((format!("C07/sender-source-block-length-field/{}", name), format!("{} B={} E={} L={} (session kind {}): a packet of block {} announces a source block length of {}, the block has {} source symbols", name, b, e, l, sess_kind, sbn, sbl, k)));
+                    }
+                }
+            }
+        }
+    }
     if per.len() as u128 != refp.n {
         return Some((format!("C07/sender-block-count/{}", name), format!("{} B={} E={} L={} (session default kind {}): {} blocks on the wire, reference {}", name, b, e, l, sess_kind, per.len(), refp.n)));
     }
